@@ -54,3 +54,20 @@ Proof.
   - vm_compute. reflexivity.
   - vm_compute. reflexivity.
 Qed.
+
+(* merge_all on a stored table: exons a [1-4], b [3-6] and c [9-9] of one class: one new row (exon_1) for the run {a, b},
+   related to both at level 1; with exclude_components a and b and the relations mentioning them go *)
+From GV Require Import Model.Order Proofs.C16All.
+Definition mrow (id : str) (s t : Z) : row :=
+  set_bin (mkRow id (U "chr1"%bs) (U "src"%bs) (U "exon"%bs) (Some s) (Some t) [46%N] P [46%N] [(IDKEY, [id])] [] None).
+Definition mst : ist := mkSt [mrow (U "a"%bs) 1 4; mrow (U "c"%bs) 9 9; mrow (U "b"%bs) 3 6] [mkRel (U "g"%bs) (U "a"%bs) 1; mkRel (U "g"%bs) (U "c"%bs) 1] [] [].
+Example C16_merge_all_inhabited :
+  match merge_all false mst [], merge_all true mst [] with
+  | Ok (s1, m1), Ok (s2, m2) =>
+      map r_id (s_rows s1) = [U "a"%bs; U "c"%bs; U "b"%bs; U "exon_1"%bs] /\
+      s_rels s1 = s_rels mst ++ [mkRel (U "exon_1"%bs) (U "a"%bs) 1; mkRel (U "exon_1"%bs) (U "b"%bs) 1] /\
+      map r_id (s_rows s2) = [U "c"%bs; U "exon_1"%bs] /\ s_rels s2 = [mkRel (U "g"%bs) (U "c"%bs) 1] /\
+      m1 = [(U "exon"%bs, 1)] /\ m2 = m1
+  | _, _ => False
+  end.
+Proof. vm_compute. repeat split. Qed.
